@@ -25,7 +25,7 @@ BudSim   == [way |-> 4, way2 |-> 2, rand |-> 3, hs |-> 4, badhs |-> 2, msg |-> 8
 
 Reset == [k |-> "Reset", retries |-> RETRIES, cap |-> CAP, sess_ttl |-> TTL]
 Init == /\ h = HInit(RETRIES, CAP, TTL) /\ env = EInit /\ bud = BUD
-        /\ hist = <<Reset>> /\ last = [in |-> Reset, rin |-> [k |-> "Nop"], hadSess |-> FALSE, hadPend |-> FALSE, pendRids |-> {}, expPend |-> FALSE, lateInt |-> FALSE, hadOld |-> FALSE, wayHsForeign |-> FALSE, wr |-> "none", prevwr |-> "none", secondEnrless |-> FALSE, wayHs |-> FALSE]
+        /\ hist = <<Reset>> /\ last = [in |-> Reset, rin |-> [k |-> "Nop"], hadSess |-> FALSE, hadPend |-> FALSE, pendRids |-> {}, expPend |-> FALSE, lateInt |-> FALSE, hadOld |-> FALSE, wayHsForeign |-> FALSE, wr |-> "none", prevwr |-> "none", secondEnrless |-> FALSE, respWhile2 |-> FALSE, wayHs |-> FALSE]
         /\ subm = {} /\ outc = [r \in RIDS |-> 0] /\ proved = {} /\ xreq = {} /\ rot = {}
 
 Parties == PEERS \cup (IF ATTACKER THEN {"A"} ELSE {})
@@ -124,6 +124,8 @@ Do(kind, in) ==
                         prevwr |-> last.wr,
                         secondEnrless |-> rin.k = "AppRequest" /\ ~rin.enr /\ HasSess(h, Addr(rin.peer, rin.addr))
                                           /\ (\E i \in 1..Len(h.active) : h.active[i].addr = Addr(rin.peer, rin.addr) /\ ~h.active[i].int /\ ~h.active[i].enr /\ h.active[i].hs),
+                        respWhile2 |-> rin.k = "msg" /\ Cardinality({i \in 1..Len(h.active) : h.active[i].addr = Addr(rin.src, rin.from) /\ ~h.active[i].int /\ ~h.active[i].enr}) >= 2
+                                       /\ rin.msg.t = "resp" /\ (\E i \in 1..Len(h.active) : h.active[i].addr = Addr(rin.src, rin.from) /\ h.active[i].hs /\ h.active[i].rid = rin.msg.rid),
                         wayHs |-> rin.k = "way" /\ \E i \in 1..Len(h.active) : h.active[i].n = rin.echo /\ h.active[i].hs /\ h.active[i].kind = "msg" /\ h.active[i].addr.sock = rin.from]
         /\ hist' = Append(hist, in)
         /\ subm' = IF in.k = "AppRequest" THEN subm \cup {in.rid} ELSE subm
@@ -244,6 +246,8 @@ GoalReplayMsgFromSibling == ~(last.in.k = "Replay" /\ last.rin.k = "msg" /\ last
 \* a second request to a peer dialled without a record, submitted after the handshake for the first one went out (a session exists)
 \* and before that first request is answered: it is sent under the session, not queued for ever
 GoalSecondRequestEnrless == ~(last.secondEnrless /\ \E i \in 1..Len(h.tx) : h.tx[i].kind = "msg" /\ h.tx[i].body.t = "req")
+\* ... and the first of two requests in flight to such a peer is answered (the second one stays in flight, it is not stuck in a queue)
+GoalAnswerFirstOfTwoEnrless == ~(last.respWhile2 /\ Delivered("Response"))
 GoalBadSigKeepsChallenge == ~(last.rin.k = "hs" /\ last.rin.signer = "bad" /\ HasChal(h, Addr(last.rin.src, last.rin.from)))
 GoalReplayedHs  == ~(last.in.k = "Replay" /\ last.rin.k = "hs" /\ Len(h.sessq) >= 1)
 =============================================================================
